@@ -384,7 +384,25 @@ func (c *stepCtx) judge() {
 
 	// --- C11 style ---
 	if !res.Failed && c03.ok && obsValid && matched != nil && !matched.Reject {
-		c.styleCheck(beforeT, afterT, &c03, matched)
+		// an inserted line that equals its neighbour makes the position of the new block
+		// ambiguous: the style is fine if it is fine under any valid alignment
+		alts := c03.alts
+		if len(alts) == 0 {
+			alts = []c03Result{c03}
+		}
+		var firstBad *Verdict
+		okAny := false
+		for k := range alts {
+			if v := c.styleCheck(beforeT, afterT, &alts[k], matched); v == nil {
+				okAny = true
+				break
+			} else if firstBad == nil {
+				firstBad = v
+			}
+		}
+		if !okAny && firstBad != nil {
+			c.report("C11", firstBad.Rule, firstBad.Site, firstBad.Detail)
+		}
 	}
 }
 
@@ -595,7 +613,7 @@ func setOf(m map[string]bool) string {
 	return "{" + strings.Join(ks, ",") + "}"
 }
 
-func (c *stepCtx) styleCheck(before, after string, c03 *c03Result, mo *MOutcome) {
+func (c *stepCtx) styleCheck(before, after string, c03 *c03Result, mo *MOutcome) *Verdict {
 	op := c.op
 	w := &c.hc.World
 	facts := fileFacts(before)
@@ -706,8 +724,7 @@ func (c *stepCtx) styleCheck(before, after string, c03 *c03Result, mo *MOutcome)
 			continue
 		}
 		if !eols[l.EOL] {
-			c.report("C11", "style-line-ending", op.Kind, fmt.Sprintf("added line %q ends in %q, allowed %s; before=%q after=%q", l.Text, l.EOL, setOf(eols), shortText(before, 300), shortText(after, 300)))
-			return
+			return &Verdict{Rule: "style-line-ending", Site: op.Kind, Detail: fmt.Sprintf("added line %q ends in %q, allowed %s; before=%q after=%q", l.Text, l.EOL, setOf(eols), shortText(before, 300), shortText(after, 300))}
 		}
 	}
 	for i, cs := range c03.changes {
@@ -718,8 +735,7 @@ func (c *stepCtx) styleCheck(before, after string, c03 *c03Result, mo *MOutcome)
 					j = i + c03.n
 				}
 				if !eols[A[j].EOL] {
-					c.report("C11", "style-line-ending", op.Kind, fmt.Sprintf("newline added to the former last line is %q, allowed %s", A[j].EOL, setOf(eols)))
-					return
+					return &Verdict{Rule: "style-line-ending", Site: op.Kind, Detail: fmt.Sprintf("newline added to the former last line is %q, allowed %s", A[j].EOL, setOf(eols))}
 				}
 			}
 		}
@@ -737,22 +753,19 @@ func (c *stepCtx) styleCheck(before, after string, c03 *c03Result, mo *MOutcome)
 		if op.Kind == "stop" {
 			// continuation lines of the closed entry: twice the record's own indentation
 			if target != nil && target.Indent != "" && ws != target.Indent+target.Indent {
-				c.report("C11", "style-indentation", op.Kind, fmt.Sprintf("summary line %q is indented with %q, the record uses %q twice", l.Text, ws, target.Indent))
-				return
+				return &Verdict{Rule: "style-indentation", Site: op.Kind, Detail: fmt.Sprintf("summary line %q is indented with %q, the record uses %q twice", l.Text, ws, target.Indent)}
 			}
 			continue
 		}
 		if unit == "" {
 			unit = ws
 			if !indentsAllowed[unit] {
-				c.report("C11", "style-indentation", op.Kind, fmt.Sprintf("added entry line %q is indented with %q, allowed %s; before=%q", l.Text, unit, setOf(indentsAllowed), shortText(before, 400)))
-				return
+				return &Verdict{Rule: "style-indentation", Site: op.Kind, Detail: fmt.Sprintf("added entry line %q is indented with %q, allowed %s; before=%q", l.Text, unit, setOf(indentsAllowed), shortText(before, 400))}
 			}
 			continue
 		}
 		if ws != unit && ws != unit+unit {
-			c.report("C11", "style-indentation", op.Kind, fmt.Sprintf("added line %q is indented with %q, the entry started with %q", l.Text, ws, unit))
-			return
+			return &Verdict{Rule: "style-indentation", Site: op.Kind, Detail: fmt.Sprintf("added line %q is indented with %q, the entry started with %q", l.Text, ws, unit)}
 		}
 	}
 	// date of a new record
@@ -762,12 +775,10 @@ func (c *stepCtx) styleCheck(before, after string, c03 *c03Result, mo *MOutcome)
 				dateText := strings.Fields(l.Text)[0]
 				if op.Args.DateSel == "explicit" {
 					if dateText != op.Args.Date {
-						c.report("C11", "style-date", op.Kind, fmt.Sprintf("record written as %q although the user passed --date=%s", dateText, op.Args.Date))
-						return
+						return &Verdict{Rule: "style-date", Site: op.Kind, Detail: fmt.Sprintf("record written as %q although the user passed --date=%s", dateText, op.Args.Date)}
 					}
 				} else if !slash[m[2] == "/"] {
-					c.report("C11", "style-date", op.Kind, fmt.Sprintf("date %q does not use a separator the file/config uses (before=%q, date_format=%q)", dateText, shortText(before, 300), w.CfgDateFormat))
-					return
+					return &Verdict{Rule: "style-date", Site: op.Kind, Detail: fmt.Sprintf("date %q does not use a separator the file/config uses (before=%q, date_format=%q)", dateText, shortText(before, 300), w.CfgDateFormat)}
 				}
 				break
 			}
@@ -790,20 +801,17 @@ func (c *stepCtx) styleCheck(before, after string, c03 *c03Result, mo *MOutcome)
 				}
 				if m := rangeRe.FindStringSubmatch(l.Text[len(ws):]); m != nil && strings.HasPrefix(m[5], "?") {
 					if !conv[convOf(m[1])] {
-						c.report("C11", "style-time-convention", op.Kind, fmt.Sprintf("start time %q, allowed conventions %s; before=%q", m[1], setOf(conv), shortText(before, 300)))
-						return
+						return &Verdict{Rule: "style-time-convention", Site: op.Kind, Detail: fmt.Sprintf("start time %q, allowed conventions %s; before=%q", m[1], setOf(conv), shortText(before, 300))}
 					}
 					d := "tight"
 					if m[3] != "" && m[4] != "" {
 						d = "spaced"
 					}
 					if !dash[d] {
-						c.report("C11", "style-dash", op.Kind, fmt.Sprintf("open range %q is %s, allowed %s; before=%q", m[0], d, setOf(dash), shortText(before, 300)))
-						return
+						return &Verdict{Rule: "style-dash", Site: op.Kind, Detail: fmt.Sprintf("open range %q is %s, allowed %s; before=%q", m[0], d, setOf(dash), shortText(before, 300))}
 					}
 					if !ph[len(m[5])] {
-						c.report("C11", "style-placeholder", op.Kind, fmt.Sprintf("placeholder %q has length %d, allowed lengths %v; before=%q", m[5], len(m[5]), keysOfInt(ph), shortText(before, 300)))
-						return
+						return &Verdict{Rule: "style-placeholder", Site: op.Kind, Detail: fmt.Sprintf("placeholder %q has length %d, allowed lengths %v; before=%q", m[5], len(m[5]), keysOfInt(ph), shortText(before, 300))}
 					}
 				}
 				break
@@ -813,13 +821,13 @@ func (c *stepCtx) styleCheck(before, after string, c03 *c03Result, mo *MOutcome)
 			for _, cs := range c03.changes {
 				for _, ch := range cs {
 					if ch.kind == "placeholder" && !conv[convOf(ch.newTok)] {
-						c.report("C11", "style-time-convention", op.Kind, fmt.Sprintf("end time %q, allowed conventions %s; before=%q", ch.newTok, setOf(conv), shortText(before, 300)))
-						return
+						return &Verdict{Rule: "style-time-convention", Site: op.Kind, Detail: fmt.Sprintf("end time %q, allowed conventions %s; before=%q", ch.newTok, setOf(conv), shortText(before, 300))}
 					}
 				}
 			}
 		}
 	}
+	return nil
 }
 
 func keysOfInt(m map[int]bool) []int {
